@@ -106,6 +106,22 @@ Proof.
   specialize (Hn _ Hr). destruct r; [now rewrite app_nil_r | discriminate].
 Qed.
 
+Lemma pops_firstn {A} (ls : list (list A)) o ps rem k :
+  pops ls o = Some (ps, rem) ->
+  exists rem', pops ls (firstn k o) = Some (firstn k ps, rem').
+Proof.
+  revert ls ps k; induction o as [|j o IH]; intros ls ps k H; simpl in H.
+  - inversion H; subst. exists rem. destruct k; reflexivity.
+  - destruct (nth_error ls j) as [[|y ys]|] eqn:Ej; try discriminate.
+    destruct (pops (set_nth ls j ys) o) as [[r' l']|] eqn:E; try discriminate.
+    inversion H; subst. destruct k as [|k].
+    + exists ls. reflexivity.
+    + destruct (IH _ _ k E) as (rem' & Hr). exists rem'. simpl. now rewrite Ej, Hr.
+Qed.
+
+Lemma firstn_length_app {A} (a b : list A) : firstn (length a) (a ++ b) = a.
+Proof. induction a; simpl; congruence. Qed.
+
 Section Proofs.
   Context {data : Type}.
   Variable declared : data -> option nat.
@@ -485,5 +501,25 @@ Section Proofs.
     let s := run declared max_atts split tr sched progs in
     st_entered s ++ st_pending s = st_finished s.
   Proof. intros Hf. unfold run. apply fifo_exec; [reflexivity | exact Hf]. Qed.
+
+  Lemma reach_run sched : reach (run declared max_atts split tr sched progs).
+  Proof. unfold run. apply reachable_exec. now apply reach_init. Qed.
+
+  (** Partial form of the handler-entry order: under FIFO scheduling of the dispatch goroutines the
+      handler-entry sequence is an interleaving of prefixes of the per-emitter sequences. *)
+  Theorem entry_order_fifo sched :
+    fifo_dispatch sched = true ->
+    exists rem, interleaving progs (st_entered (run declared max_atts split tr sched progs)) rem.
+  Proof.
+    intros Hf. pose proof (fifo_dispatch_order sched Hf) as E. cbv zeta in E.
+    pose proof (reach_run sched) as R. set (s := run declared max_atts split tr sched progs) in *.
+    destruct (reassembly s R) as [_ [k Hk]]. pose proof (inv_log _ (inv_reachable _ R)) as L.
+    rewrite Hk in E.
+    assert (En : st_entered s = firstn (length (st_entered s)) (firstn k (map snd (st_log s)))).
+    { rewrite <- E. now rewrite firstn_length_app. }
+    destruct (pops_firstn _ _ _ _ k L) as (r1 & H1).
+    destruct (pops_firstn _ _ _ _ (length (st_entered s)) H1) as (r2 & H2).
+    exists r2. eexists. rewrite En. exact H2.
+  Qed.
 
 End Proofs.
